@@ -335,10 +335,19 @@ def judge(pid, seed, tier):
                 ys = [v + 1e6 for v in ys]
                 cs = [c + 1e6 for c in cs]
                 pos = True
+            zi = False
+            if not (ys and ys[0] > 1e5) and rng.random() < 0.3:
+                # zero-inflated non-negative sample (counts): the edge y = 0 of the domain of the degrees in [1, 2)
+                ys = [type(v)(0) if rng.random() < 0.5 else abs(v) for v in ys]
+                zi = True
             yarr = np.asarray(ys, dtype=np.int64 if intdata else float)
             kind = rng.choice(["mean", "expectile", "quantile"])
+            if zi and kind == "quantile":
+                kind = "mean"
             if kind == "mean":
                 h = rng.choice([2.0, 2.0, 1.0, 0.0, 1.5, 3.0, -1.0, 4.0, 2.5])
+                if zi:
+                    h = rng.choice([1.0, 1.0, 1.5])
                 sf, a = HomogeneousExpectileScore(degree=h, level=0.5), 0.5
                 if h == 2.0 and rng.random() < 0.5:
                     sf = SquaredError()
@@ -346,6 +355,8 @@ def judge(pid, seed, tier):
                 dom = (lambda c: hes_in(h, 1.0, c))
             elif kind == "expectile":
                 h = rng.choice([2.0, 1.0, 0.0, 1.5, 3.0, 2.5])
+                if zi:
+                    h = rng.choice([1.0, 1.0, 1.5])
                 a = rng.choice([0.1, 0.3, 0.8])
                 sf = HomogeneousExpectileScore(degree=h, level=a)
                 t = [float(expectile(ys, ws, a))]
@@ -523,6 +534,22 @@ def judge(pid, seed, tier):
             if not np.array_equal(r_reuse, r_fresh) or not np.array_equal(r_eta, r_eta_fresh):
                 add(f"ElementaryScore[{f}]", dict(y=yb.tolist(), z=zb.tolist()), [r_reuse.tolist(), r_fresh.tolist(), r_eta.tolist(), r_eta_fresh.tolist()],
                     "a reused scorer gives the same values as a fresh one (after y_obs was modified in place / eta was reassigned)")
+    if pid in ("C05", "C15"):
+        # an ElementaryScore reads functional / level at call time: a scorer built at level 1/2 (where "quantile" coincides with
+        # "median" and "expectile" with "mean") and re-parameterised afterwards scores like a fresh one
+        yb = np.array([0.0, 2.0, 1.0, 3.0, 1.0])
+        zb = np.array([1.5, 0.5, 2.5, 0.0, 1.0])
+        for f in ("quantile", "expectile", "median", "mean"):
+            for eta in (1.0, 0.75):
+                tried += 1
+                sfr = ElementaryScore(eta, f, 0.5)
+                sfr.score_per_obs(yb, zb)
+                sfr.level = 0.9
+                got = real(lambda: np.asarray(sfr.score_per_obs(yb, zb), dtype=float).tolist())
+                fresh = real(lambda: np.asarray(ElementaryScore(eta, f, 0.9).score_per_obs(yb, zb), dtype=float).tolist())
+                if got != fresh:
+                    add(f"ElementaryScore[{f}]", dict(eta=eta, built_with_level=0.5, level_reassigned=0.9, y=yb.tolist(), z=zb.tolist()), [got, fresh],
+                        "a scorer whose public attribute level was reassigned scores like a fresh scorer with that level (built at level 1/2)")
     # ---- glue around the translated core (np.asarray / validate_2_arrays): mixed float precision and purity
     if pid in ("C04", "C05", "C08", "C14", "C15"):
         y32 = np.array([1.0000001, 2.5, -0.75, 3.0000002], dtype=np.float32)
